@@ -105,7 +105,7 @@ DEFAULT_WEIGHTS = {
   'rename_choices': 0.5, 'convert_from_column': 0.3, 'set_visible_col': 0.8,
   'add_view': 0.6, 'create_section': 1.2, 'create_summary': 2.5, 'update_summary': 1,
   'detach_summary': 0.4, 'remove_section': 0.6, 'remove_view': 0.4, 'remove_page': 0.3,
-  'remove_field': 0.4, 'add_filter': 0.3, 'add_acl': 0.3, 'add_trigger': 0.2,
+  'remove_field': 0.4, 'add_field': 0.4, 'add_filter': 0.3, 'add_acl': 0.3, 'add_trigger': 0.2,
   'calculate': 0.5, 'invalid': 3, 'remove_stale': 0.2,
 }
 
@@ -211,17 +211,24 @@ class Gen(object):
     self.focus = None
     if n > 1 and m.user_tables and r.random() < 0.5:
       self.focus = r.choice(m.user_tables)['id']
-    for _ in range(n):
-      a = self.action(m)
+    for i in range(n):
+      a = self.action(m, first=(i == 0))
       if a is not None:
         out.append(a)
     self.focus = None
     return out or [['Calculate']]
 
-  def action(self, m):
+  # Kinds that write metadata references from the (pre-bundle) model: only as a bundle's first action,
+  # so that the generator itself never stores a reference to something an earlier action removed.
+  META_WRITERS = ('add_field', 'add_filter', 'add_acl', 'add_trigger', 'set_visible_col', 'set_display_formula',
+                  'add_empty_rule', 'modify_recalc', 'add_trigger_column')
+
+  def action(self, m, first=True):
     r = self.r
     for _ in range(30):
       kind = r.choices(self.kinds, [self.w[k] for k in self.kinds])[0]
+      if not first and kind in self.META_WRITERS:
+        continue
       if not m.user_tables and kind not in ('add_table', 'add_empty_table', 'add_raw_table'):
         kind = 'add_table'
       a = getattr(self, 'k_' + kind)(m)
@@ -431,11 +438,43 @@ class Gen(object):
       return None
     return ['RemoveColumn', t['id'], c['id']]
 
+  def wanted_names(self, m, t):
+    """Column ids that some formula mentions ($x, .x, x=) but that table t does not have."""
+    import re
+    have = set(c['id'] for c in t['cols']) | {'id', 'lookupRecords', 'lookupOne', 'all', 'find', 'lt', 'le', 'gt', 'ge', 'eq'}
+    want = set()
+    for c in m.colbyref.values():
+      if c['formula']:
+        for mo in re.finditer(r'[$.]([A-Za-z_][A-Za-z0-9_]*)|\b([A-Za-z_][A-Za-z0-9_]*)=', c['formula']):
+          name = mo.group(1) or mo.group(2)
+          if name and name not in have and not name[0].isdigit() and len(name) < 12:
+            want.add(name)
+    return sorted(want)
+
   def k_rename_column(self, m):
     t, c = self._col(m, summary_ok=True)
     if c is None:
       return None
+    if self.r.random() < 0.2:
+      w = self.wanted_names(m, t)
+      if w:
+        return ['RenameColumn', t['id'], c['id'], self.r.choice(w)]
     return ['RenameColumn', t['id'], c['id'], self.name('N') or 'Rn']
+
+  def k_add_field(self, m):
+    """Show a column in a section (what the UI does when a hidden column is un-hidden), including
+    the 'group' column of summary tables."""
+    r = self.r
+    ss = [s for s in m.sections.values() if s['tableRef'] in m.byref]
+    if not ss:
+      return None
+    s = r.choice(ss)
+    t = m.byref[s['tableRef']]
+    cols = [c for c in t['cols'] if c['id'] != 'manualSort' and not c['id'].startswith('gristHelper_')]
+    if not cols:
+      return None
+    c = r.choice(cols)
+    return ['AddRecord', '_grist_Views_section_field', None, {'parentId': s['ref'], 'colRef': c['ref']}]
 
   def k_modify_type(self, m):
     r = self.r
